@@ -700,8 +700,8 @@ fn engine_scenario(case: &EngineCase) -> crate::erpki::Scenario {
         fault: None,
         omit_children: vec![],
     };
-    let cas = (0..n).map(|i| Ca { parent: if i == 0 { None } else { Some((i - 1) / fanout) }, key: i, module: case.modules[i] as usize % 3, not_after: 86400 * 365, cert_fault: None, versions: vec![version(i)], extra_res: None, ta_alt: vec![], sia_under_parent_mft: false }).collect::<Vec<_>>();
-    let steps = vec![Step { publish: vec![0; n], fail_modules: vec![], offline: false, stale: None, foreign_tal_key: vec![], ta_serve: vec![] }];
+    let cas = (0..n).map(|i| Ca { parent: if i == 0 { None } else { Some((i - 1) / fanout) }, key: i, module: case.modules[i] as usize % 3, not_after: 86400 * 365, cert_fault: None, versions: vec![version(i)], extra_res: None, ta_alt: vec![], sia_under_parent_mft: false, rrdp: None }).collect::<Vec<_>>();
+    let steps = vec![Step { publish: vec![0; n], fail_modules: vec![], offline: false, stale: None, foreign_tal_key: vec![], ta_serve: vec![], fail_rrdp: vec![] }];
     Scenario { cfg: Cfg { threads: 8, ..Default::default() }, cas, steps }
 }
 
